@@ -663,7 +663,12 @@ class VectorObject2D(VectorObject, Planar, Vector2D):
 
         for k, v in kwargs.copy().items():
             kwargs.pop(k)
-            kwargs[_repr_momentum_to_generic.get(k, k)] = v
+            generic = _repr_momentum_to_generic.get(k, k)
+            if generic in kwargs:
+                raise TypeError(
+                    f"duplicate coordinates (through momentum-aliases): {generic!r}"
+                )
+            kwargs[generic] = v
 
         if not kwargs and azimuthal is not None:
             self.azimuthal = azimuthal
@@ -1030,7 +1035,12 @@ class VectorObject3D(VectorObject, Spatial, Vector3D):
 
         for k, v in kwargs.copy().items():
             kwargs.pop(k)
-            kwargs[_repr_momentum_to_generic.get(k, k)] = v
+            generic = _repr_momentum_to_generic.get(k, k)
+            if generic in kwargs:
+                raise TypeError(
+                    f"duplicate coordinates (through momentum-aliases): {generic!r}"
+                )
+            kwargs[generic] = v
 
         if not kwargs and azimuthal is not None and longitudinal is not None:
             self.azimuthal = azimuthal
@@ -1687,7 +1697,12 @@ class VectorObject4D(VectorObject, Lorentz, Vector4D):
     ) -> None:
         for k, v in kwargs.copy().items():
             kwargs.pop(k)
-            kwargs[_repr_momentum_to_generic.get(k, k)] = v
+            generic = _repr_momentum_to_generic.get(k, k)
+            if generic in kwargs:
+                raise TypeError(
+                    f"duplicate coordinates (through momentum-aliases): {generic!r}"
+                )
+            kwargs[generic] = v
 
         if (
             not kwargs
